@@ -442,7 +442,7 @@ def alternative_cosine(x, y):
     elif result <= 0.0:
         return FLOAT32_MAX
     else:
-        result = np.sqrt(norm_x * norm_y) / result
+        result = np.sqrt(np.float64(norm_x) * np.float64(norm_y)) / result
         return np.log2(result)
 
 
